@@ -344,6 +344,54 @@ func checkC06(p *Program, r *Report) {
 						}
 					}
 				}
+				// the integer reading comes first: a numeral that is an integer is compared as an int64 (all 64 bits), and only a
+				// numeral the integer parse rejects is read as a float
+				intBlocks := map[*ssa.BasicBlock]bool{}
+				for _, gb := range g.Blocks {
+					for _, gin := range gb.Instrs {
+						if gc, ok := gin.(*ssa.Call); ok {
+							leaves := map[string]bool{}
+							parseLeaves(m, gc, leaves, map[*ssa.Function]bool{})
+							for l := range leaves {
+								if strings.Contains(l, "ParseInt") {
+									intBlocks[gb] = true
+								}
+							}
+						}
+					}
+				}
+				if len(intBlocks) > 0 && len(floatBlocks) > 0 {
+					early := ""
+					noInt := reachable(g.Blocks[0], func(x *ssa.BasicBlock) bool { return intBlocks[x] && !floatBlocks[x] })
+					for fb := range floatBlocks {
+						if noInt[fb] && !intBlocks[fb] {
+							early = "the float parse in block " + fmt.Sprint(fb.Index) + " can run before the integer parse was tried"
+						}
+						if intBlocks[fb] {
+							// same block: order of the two calls
+							iInt, iFl := -1, -1
+							for i, gin := range fb.Instrs {
+								if gc, ok := gin.(*ssa.Call); ok {
+									leaves := map[string]bool{}
+									parseLeaves(m, gc, leaves, map[*ssa.Function]bool{})
+									for l := range leaves {
+										if strings.Contains(l, "ParseInt") && iInt < 0 {
+											iInt = i
+										}
+										if strings.Contains(l, "ParseFloat") && iFl < 0 {
+											iFl = i
+										}
+									}
+								}
+							}
+							if iFl >= 0 && iInt >= 0 && iFl < iInt {
+								early = "the float parse precedes the integer parse"
+							}
+						}
+					}
+					r.Check(early == "", "C06.R9", g.Name()+"|integer reading before float reading", p.Pos(g.Pos()), "the float parse is reached only after the integer parse was tried",
+						early+": every integer numeral is rounded to float64 before it is compared, so \"9007199254740993\" equals 9007199254740992")
+				}
 				bad := ""
 				reach := reachable(g.Blocks[0], func(x *ssa.BasicBlock) bool { return floatBlocks[x] })
 				for _, gb := range g.Blocks {
@@ -444,6 +492,37 @@ func checkC06(p *Program, r *Report) {
 		}
 	}
 	r.Floor("C06.R5", nParse, 4)
+	// ... and what is parsed is the string as it is: the text handed to ParseInt / ParseFloat is the operand's own String(),
+	// not an edited copy (trimmed, lower-cased, with separators removed): an edited copy makes strings that are not numerals
+	// equal to numbers
+	nText := 0
+	perFn = map[*ssa.Function]int{}
+	for _, fn := range m.fns {
+		for _, b := range fn.Blocks {
+			for _, in := range b.Instrs {
+				c, ok := in.(*ssa.Call)
+				if !ok {
+					continue
+				}
+				o := calleeObj(c)
+				if o == nil || !(isFuncNamed(o, "strconv", "", "ParseInt") || isFuncNamed(o, "strconv", "", "ParseFloat")) {
+					continue
+				}
+				nText++
+				perFn[fn]++
+				arg := c.Call.Args[0]
+				if sv := spilledValue(arg); sv != nil {
+					arg = sv
+				}
+				ac, isCall := arg.(*ssa.Call)
+				r.Check(isCall && reflectMethod(ac) == "String", "C06.R5", fmt.Sprintf("%s|%s #%d parses the operand's own text", funcName(fn), o.Name(), perFn[fn]), p.Pos(c.Pos()),
+					"the argument is reflect.Value.String() of the operand", "the text handed to strconv."+o.Name()+" is not the operand's own string but something computed from it: strings that are not numerals (padded, re-cased, ...) become equal to numbers")
+			}
+		}
+	}
+	r.Floor("C06.R5", nText, 7)
+	r.Explain("R10 in the comparator the unwrapping of one operand is not decided by the other operand (no else-if between the two): symmetric preparation is a necessary condition of a symmetric relation.")
+	comparatorOperandsIndependent(p, r, m, "C06.R10")
 }
 
 type wstate struct{ b, pred *ssa.BasicBlock }
@@ -966,4 +1045,131 @@ func elemAfterNilTest(tt *typeTerms, c *ssa.Call) bool {
 		}
 	}
 	return false
+}
+
+// findComparator returns the function `==` is decided by (the two-reflect.Value bool function called under case "==").
+func findComparator(m *vmModel) *ssa.Function {
+	h := m.handlers["op"]["ComparisonOperator"]
+	if h == nil {
+		return nil
+	}
+	for _, b := range h.Blocks {
+		for _, in := range b.Instrs {
+			c, ok := in.(*ssa.Call)
+			if !ok {
+				continue
+			}
+			callee := staticCallee(c)
+			if callee == nil || callee.Pkg != m.sp || len(c.Call.Args) != 2 || !isReflectValue(c.Call.Args[0].Type()) || !isReflectValue(c.Call.Args[1].Type()) {
+				continue
+			}
+			if bt, ok := callee.Signature.Results().At(0).Type().(*types.Basic); !ok || bt.Kind() != types.Bool {
+				continue
+			}
+			if operatorCaseOf(b) == "==" {
+				return callee
+			}
+		}
+	}
+	return nil
+}
+
+// paramRoots: which of the function's parameters v is computed from.
+func paramRoots(fn *ssa.Function, v ssa.Value, seen map[ssa.Value]bool, out map[int]bool) {
+	if seen[v] {
+		return
+	}
+	seen[v] = true
+	switch x := v.(type) {
+	case *ssa.Parameter:
+		for i, pr := range fn.Params {
+			if pr == x {
+				out[i] = true
+			}
+		}
+		return
+	case *ssa.Const, *ssa.Global, *ssa.Function, *ssa.Builtin:
+		return
+	case *ssa.Alloc:
+		// spilled parameter or local: what is stored into it
+		for _, ref := range *x.Referrers() {
+			if st, ok := ref.(*ssa.Store); ok && st.Addr == ssa.Value(x) {
+				paramRoots(fn, st.Val, seen, out)
+			}
+		}
+		return
+	}
+	if in, ok := v.(ssa.Instruction); ok {
+		for _, op := range in.Operands(nil) {
+			if *op != nil {
+				paramRoots(fn, *op, seen, out)
+			}
+		}
+	}
+}
+
+// comparatorOperandsIndependent: in the comparator, what is done to one operand before the comparison (taking it out of its
+// interface or pointer) is not decided by the other operand. An unwrapping of the right operand that runs only when the left
+// one needed none (an else-if chain) leaves one side wrapped when both arrive wrapped: equal(a, b) then differs from == on the
+// same two values (which unwraps both before calling), and from equal(b, a).
+func comparatorOperandsIndependent(p *Program, r *Report, m *vmModel, rule string) {
+	f := findComparator(m)
+	if f == nil {
+		r.Undecided(rule, "comparator", "vm", "comparator not found")
+		return
+	}
+	n := 0
+	for _, b := range f.Blocks {
+		for _, in := range b.Instrs {
+			c, ok := in.(*ssa.Call)
+			if !ok || reflectMethod(c) != "Elem" {
+				continue
+			}
+			own := map[int]bool{}
+			paramRoots(f, c.Call.Args[0], map[ssa.Value]bool{}, own)
+			if len(own) != 1 {
+				continue
+			}
+			me := -1
+			for i := range own {
+				me = i
+			}
+			n++
+			bad := ""
+			// controlling conditions: blocks with an If of which exactly one successor leads to b without leaving b's dominance
+			for _, cb := range f.Blocks {
+				iff, ok := cb.Instrs[len(cb.Instrs)-1].(*ssa.If)
+				if !ok || cb == b || !cb.Dominates(b) {
+					continue
+				}
+				r0, r1 := reachable(cb.Succs[0], nil)[b], reachable(cb.Succs[1], nil)[b]
+				if r0 == r1 {
+					continue
+				}
+				other := cb.Succs[0]
+				if r0 {
+					other = cb.Succs[1]
+				}
+				roots := map[int]bool{}
+				paramRoots(f, iff.Cond, map[ssa.Value]bool{}, roots)
+				if roots[me] || len(roots) == 0 {
+					continue
+				}
+				// an early exit (the other side returns without rejoining) is not a dependence of the preparation
+				fromOther, fromB := reachable(other, nil), reachable(b, nil)
+				joins := false
+				for x := range fromOther {
+					if fromB[x] && x != b {
+						joins = true
+					}
+				}
+				if joins {
+					bad = "whether it runs is decided at " + p.Pos(instrPos(iff)) + " by the other operand alone"
+				}
+			}
+			r.Check(bad == "", rule, fmt.Sprintf("%s|unwrapping #%d of operand %d is independent of the other operand", f.Name(), n, me+1), p.Pos(c.Pos()),
+				"controlled by tests on the operand itself (and by early exits)", bad+": when both operands arrive inside an interface only one is taken out, and the comparator's answer depends on the side a value is on and on how it was obtained")
+		}
+	}
+	r.Floor(rule, n, 2)
 }
